@@ -11,6 +11,9 @@ META = {
             "(extract/precedence -> Csvq/Gen/Precedence.lean, fails closed), the model parser is precedence climbing driven by that table with yacc's conflict-resolution rule, and "
             "parse(print e) = e is proved for every tree the parser can build (WellFormed, any depth), WellFormed is proved exact (everything parse returns is well formed), the regenerated "
             "levels are checked against the reviewed order; tied to the real parser by stream op c18.opx (tree shape and printed tokens, valid and invalid token lists). "
+            "The String() methods of ast.go are tied by regeneration too: extract/astprint re-derives, for all 68 printable node types, the fields, the fields the printer reads and the ordered, "
+            "condition-guarded parts of the method body, and from parser.y the fields every production sets; theorems: every field is read by its printer (exemption: BaseExpr), the print sequences equal "
+            "the reviewed reference (Ref/AstPrint.lean), every field a production sets is printed under a condition that holds for it, the operator printers emit what the model's print does. "
             "PARTIAL: the rest of the grammar layer (statements, clauses, BETWEEN / IN / NOT LIKE / ANY / ALL / row values, functions; goyacc driver + semantic actions + the other String() methods) is not modelled - "
             "parser.Parse totality, error positions, print/parse fixpoint and evaluation agreement are validated by correspondence only "
             "(corpus + grammar-aware mutation + generated queries, all four prepared x ansi-quotes modes)",
@@ -34,6 +37,7 @@ def run(run):
         "print_parse_eval_agree is checked only for generated constant SELECT queries (no tables, whitelisted deterministic functions); texts are never executed otherwise",
     ]
     run.regen("precedence", ["go", "run", "-C", "extract/precedence", ".", str(REPO / "lib" / "parser" / "parser.y")], "Csvq/Gen/Precedence.lean")
+    run.regen("astprint", ["go", "run", "-C", "extract/astprint", "."], "Csvq/Gen/AstPrint.lean")
     run.obligations_for(["Csvq.Props.C18"])
     run.stream("c18", 30000 if q else 400000)
     if not q:
@@ -53,6 +57,7 @@ def run(run):
         trusted_base=BASE_TRUST + [
             "unicode.IsLetter/IsDigit tables (parameters of the theorems; driver instance = ASCII + fixed pool, checked against Go at harness start)",
             "extract/precedence (reads parser.y as text; refuses unknown declarations, production shapes and actions)",
+            "extract/astprint (go/ast over ast.go and over the Go code of the actions of parser.y; refuses statement forms outside its subset; conditions are the lexically enclosing ones, early returns appear as return parts)",
             "goyacc-generated parser tables and driver loop, semantic actions of parser.y, String() methods other than the unary operators (validated by correspondence only)",
         ],
         checker_cmd="cd /verif/lean && lake build Csvq.Props.C18 && lake env lean <#print axioms for every theorem>",
